@@ -386,6 +386,11 @@ class WalkLoop(LoopSpec):
         st.ghost["on_at_start"] = ex.models.text(st, st.env["overhang_next"])
         return st
 
+    def decreases(self, ex, s_start, s_end, ctx):
+        """variant of the walk: the number of modules still filed in the map (each turn pops one)"""
+        return (tm.app("card", INT, map_arr(s_start, s_start.env["modmap"])),
+                tm.app("card", INT, map_arr(s_end, s_end.env["modmap"])))
+
     def at_body_end(self, ex, st, ctx):
         st = st.fork()
         e = st.get(st.env["module"], "ident").t
